@@ -117,6 +117,9 @@ func checkPaths(update bson.D) error {
 	tree := bsonkit.NewPathNode()
 	defer tree.Recycle()
 
+	// prepare list of seen paths
+	var seen [][]string
+
 	// check all operator paths
 	for _, operator := range update {
 		// get fields
@@ -140,11 +143,30 @@ func checkPaths(update bson.D) error {
 					return fmt.Errorf("conflicting key %q", path)
 				}
 				tree.Append(path).Store(true)
+
+				// a positional segment ($, $[] or $[identifier]) conflicts
+				// with a field name or index at the same position
+				segments := strings.Split(path, ".")
+				for _, other := range seen {
+					for i := 0; i < len(segments) && i < len(other); i++ {
+						if segments[i] != other[i] {
+							if isPositional(segments[i]) != isPositional(other[i]) {
+								return fmt.Errorf("conflicting key %q", path)
+							}
+							break
+						}
+					}
+				}
+				seen = append(seen, segments)
 			}
 		}
 	}
 
 	return nil
+}
+
+func isPositional(segment string) bool {
+	return segment == "$" || strings.HasPrefix(segment, "$[")
 }
 
 func applySet(ctx Context, doc bsonkit.Doc, _, path string, v interface{}) error {
